@@ -2,6 +2,7 @@ import Dawgs.Model.SqlEval
 import Dawgs.Model.C01S2
 import Dawgs.Model.C01Chain
 import Dawgs.Model.C01Count
+import Dawgs.Model.C01Limit
 /-
 C02 — models of the optimiser's transformations.
 
@@ -276,6 +277,17 @@ the lowering TraversalDirectionSelection may pick the other join order for a hop
 frame, and CountStoreFastPath replaces the count statement when the MATCH has no user predicate. -/
 def trVariant (flipOf : C01.S2.Query → Bool) (flipCh : C01.Ch.Query → Bool) (flipN : C01.S2n.Query → Bool) (optimised : Bool) (km : KindMap)
     (q : Cy.Query) : Option (Sql.Stmt × List (String × Val)) := C01.tr5F flipOf flipCh flipN optimised optimised km q
+
+/-- the same over `C01.tr6F`, which adds stage S2L (a hop with LIMIT k, no ORDER BY, no SKIP): there the optimised translator also writes the
+LIMIT into the hop frame (limit pushdown, `translate.limitPushdownTailSource`); the unoptimised one does not -/
+def trVariantL (flipOf : C01.S2.Query → Bool) (flipCh : C01.Ch.Query → Bool) (flipN : C01.S2n.Query → Bool) (optimised : Bool) (km : KindMap)
+    (q : Cy.Query) : Option (Sql.Stmt × List (String × Val)) := C01.tr6F flipOf flipCh flipN optimised optimised optimised km q
+
+/-- what `limitPushdownTailSource` sees on the statements of the proved fragment (assigned by hand from the statement forms of
+`C01.S2.Query.stmtWith` / `C01.S2n.Query.trWith`: one reading clause, tail `select items from s0`, source `s0` a CTE with a one-part name) -/
+def hopLimitShape : TailShape := ⟨true, false, false, 1, 0, false, false, false, false, false, false, 1, 0, true, 1, true⟩
+def hopShape : TailShape := { hopLimitShape with hasLimit := false }
+def hopCountLimitShape : TailShape := { hopLimitShape with aggregate := true }
 
 /-- with the optimiser: the model's approximation of the direction choice (see `C01.tr2F`), fast path on -/
 def trOpt (km : KindMap) (q : Cy.Query) : Option (Sql.Stmt × List (String × Val)) := trVariant C01.flipOpt (fun _ => false) (fun _ => false) true km q
